@@ -11,7 +11,7 @@ def hexs(b):
     return b.hex() or "-"
 
 
-def field_edit(rng, st):
+def field_edit(rng, st, pick=None):
     """one illegal (or boundary) value in the set-up, by name -> (setup', label)"""
     s = copy.deepcopy(st["setup"])
     nb, nf, nr, nm = len(s["books"]), len(s["floors"]), len(s["residues"]), len(s["mappings"])
@@ -89,9 +89,13 @@ def field_edit(rng, st):
     md = s["modes"][rng.below(len(s["modes"]))]
     e("mode mapping out of range", lambda: md.update(mapping=nm))
     e("64 modes", lambda: s.update(modes=[{"blockflag": k & 1, "mapping": 0} for k in range(64)]))
-    label, fn = rng.choice(edits)
+    # pick: walk through the named edits in turn, so that every one of them is exercised in every run
+    label, fn = rng.choice(edits) if pick is None else edits[pick % len(edits)]
     fn()
     return s, label
+
+
+FIELD_NO = [0]
 
 
 def gen_case(rng, k, tier):
@@ -104,7 +108,8 @@ def gen_case(rng, k, tier):
     if kind == 0:
         meta["mutation"] = "none"
     elif kind in (1, 2):
-        s2, label = field_edit(rng, st)
+        FIELD_NO[0] += 1
+        s2, label = field_edit(rng, st, pick=FIELD_NO[0])
         meta["mutation"] = "field: " + label
         try:
             hs = streams.setup_header(s2, st["channels"])
@@ -230,6 +235,7 @@ def check(rep, tier, seed):
     wd = common.workdir("C02")
     n = 480 if tier == "quick" else 20000
     texts, metas = [], []
+    FIELD_NO[0] = 0
     for k in range(n):
         t, m, _ = gen_case(rng, k, tier)
         texts.append(t)
